@@ -212,3 +212,57 @@ func VH_c09_bindings() {
 		verifrt.Reach("listed")
 	}
 }
+
+func init() {
+	verifrt.Register("VH_c09_race", VH_c09_race)
+}
+
+// C09 (schedules): two bind requests for the same local server feature arrive concurrently on two
+// connections (or twice on one); in every interleaving the feature ends up with exactly one binding,
+// one request is granted and the other refused.
+func VH_c09_race() {
+	same := verifrt.ShardChoice("connections", 2) == 1
+	if same {
+		verifrt.Scenario("one-peer-same-request-twice")
+	} else {
+		verifrt.Scenario("two-peers")
+	}
+	w := vhNewWorld(vhWorldOpts{})
+	bm := w.L.BindingManager().(*BindingManager)
+	nmL := vhAddr("L", []uint{0}, 0)
+	ft := model.FeatureTypeTypeLoadControl
+	mk := func(p int, cliFeat uint) model.DatagramType {
+		_, _, dev := w.peer(p)
+		req := &model.NodeManagementBindingRequestCallType{BindingRequest: &model.BindingManagementRequestCallType{
+			ClientAddress: vhAddr(dev, []uint{1}, cliFeat), ServerAddress: w.F1.Address(), ServerFeatureType: &ft}}
+		return model.DatagramType{Header: w.hdr(vhAddr(dev, []uint{0}, 0), nmL, model.CmdClassifierTypeCall, true), Payload: model.PayloadType{Cmd: []model.CmdType{{NodeManagementBindingRequestCall: req}}}}
+	}
+	a0, b0 := len(w.wA.msgs), len(w.wB.msgs)
+	second := 1
+	if same {
+		second = 0
+	}
+	d1, d2 := mk(0, 1), mk(second, 1)
+	r1, _, _ := w.peer(0)
+	r2, _, _ := w.peer(second)
+	verifrt.Go(func() { vhDeliver(r1, d1) })
+	verifrt.Go(func() { vhDeliver(r2, d2) })
+	verifrt.PreemptOn()
+	verifrt.WaitIdle()
+	verifrt.PreemptOff()
+	verifrt.Reach("both-done")
+	n := 0
+	ids := map[uint64]bool{}
+	for _, e := range bm.bindingEntries {
+		if e.ServerFeature == w.F1 {
+			n++
+		}
+		ids[e.Id] = true
+	}
+	verifrt.Assert("server-feature-has-exactly-one-binding", n == 1)
+	verifrt.Assert("binding-ids-distinct", len(ids) == len(bm.bindingEntries))
+	oa, ob := vhCount(w.wA, a0), vhCount(w.wB, b0)
+	ok, bad := oa.okResults+ob.okResults, oa.errResults+ob.errResults
+	verifrt.Assert("one-request-granted-one-refused", ok == 1 && bad == 1)
+	verifrt.Assert("no-thread-left-blocked", verifrt.BlockedThreads() == 0)
+}
